@@ -634,49 +634,82 @@ func execute(cfg *config, ops []op, st *stats) (f *failure) {
 	iterate := func(l *layer, seek []byte, rewind bool, n int) *failure {
 		it := l.kv.NewIterator(bg)
 		defer it.Close()
-		var idx int
 		keys := l.model.Keys()
-		if rewind {
-			it.Rewind()
-			idx = 0
-		} else {
-			it.Seek(seek)
-			idx = l.model.From(seek)
+		// scan positions the SAME iterator (Seek or Rewind) and compares at most n+1 items.
+		scan := func(seek []byte, rewind bool, again string) *failure {
+			var idx int
+			if rewind {
+				it.Rewind()
+				idx = 0
+			} else {
+				it.Seek(seek)
+				idx = l.model.From(seek)
+			}
+			for i := 0; ; i++ {
+				if e := it.Err(); e != nil {
+					return failErr(e)
+				}
+				wantValid := idx < len(keys)
+				if it.Valid() != wantValid {
+					want := "<end>"
+					if wantValid {
+						want = "0x" + lab.Hex([]byte(keys[idx]))
+					}
+					got := "<end>"
+					if it.Valid() {
+						got = "0x" + lab.Hex(it.Key())
+					}
+					return mkfail("iter-mismatch/validity"+again, fmt.Sprintf("iterator position %d after seek %s: valid=%v, model says %v", i, show(seek), it.Valid(), wantValid), got, want)
+				}
+				if !wantValid {
+					return nil
+				}
+				if !bytes.Equal(it.Key(), []byte(keys[idx])) {
+					return mkfail("iter-mismatch/key"+again, fmt.Sprintf("iterator position %d after seek %s", i, show(seek)), "0x"+lab.Hex(it.Key()), "0x"+lab.Hex([]byte(keys[idx])))
+				}
+				if !bytes.Equal(it.Value(), l.model.Get([]byte(keys[idx]))) {
+					return mkfail("iter-mismatch/value"+again, fmt.Sprintf("iterator position %d (key %x) after seek %s", i, keys[idx], show(seek)), show(it.Value()), show(l.model.Get([]byte(keys[idx]))))
+				}
+				if st != nil {
+					st.iterSteps++
+				}
+				if n >= 0 && i >= n {
+					return nil
+				}
+				it.Next()
+				idx++
+			}
 		}
-		for i := 0; ; i++ {
-			if e := it.Err(); e != nil {
-				return failErr(e)
+		if g := scan(seek, rewind, ""); g != nil {
+			return g
+		}
+		// A partial scan leaves the iterator positioned on an item: the same iterator is then
+		// sought again (to a model key chosen from the first seek key, then rewound), as prefix
+		// scans of the applications do.
+		if n >= 0 && it.Valid() && len(keys) > 0 {
+			h := 0
+			for _, b := range seek {
+				h = h*31 + int(b)
 			}
-			wantValid := idx < len(keys)
-			if it.Valid() != wantValid {
-				want := "<end>"
-				if wantValid {
-					want = "0x" + lab.Hex([]byte(keys[idx]))
-				}
-				got := "<end>"
-				if it.Valid() {
-					got = "0x" + lab.Hex(it.Key())
-				}
-				return mkfail("iter-mismatch/validity", fmt.Sprintf("iterator position %d after seek %s: valid=%v, model says %v", i, show(seek), it.Valid(), wantValid), got, want)
-			}
-			if !wantValid {
-				return nil
-			}
-			if !bytes.Equal(it.Key(), []byte(keys[idx])) {
-				return mkfail("iter-mismatch/key", fmt.Sprintf("iterator position %d after seek %s", i, show(seek)), "0x"+lab.Hex(it.Key()), "0x"+lab.Hex([]byte(keys[idx])))
-			}
-			if !bytes.Equal(it.Value(), l.model.Get([]byte(keys[idx]))) {
-				return mkfail("iter-mismatch/value", fmt.Sprintf("iterator position %d (key %x) after seek %s", i, keys[idx], show(seek)), show(it.Value()), show(l.model.Get([]byte(keys[idx]))))
+			k2 := []byte(keys[(h+len(seek)+n)%len(keys)])
+			if h%3 == 0 && len(k2) > 0 {
+				k2 = k2[:len(k2)-1] // a proper prefix of a key
 			}
 			if st != nil {
-				st.iterSteps++
+				st.ops["iter-reseek-while-positioned"]++
 			}
-			if n >= 0 && i >= n {
-				return nil
+			if g := scan(k2, false, "/re-seek-while-positioned"); g != nil {
+				g.What = "same iterator sought again while positioned: " + g.What
+				return g
 			}
-			it.Next()
-			idx++
+			if it.Valid() {
+				if g := scan(nil, true, "/rewind-while-positioned"); g != nil {
+					g.What = "same iterator rewound while positioned: " + g.What
+					return g
+				}
+			}
 		}
+		return nil
 	}
 
 	fstat := func(name string) {
